@@ -87,6 +87,7 @@ namespace sqf::runtime
         std::shared_ptr<behavior> m_exit_behavior;
         std::shared_ptr<behavior> m_error_behavior;
         std::shared_ptr<sqf::runtime::value_scope> m_globals_value_scope;
+        bool m_globals_selected;
         bool m_bubble_variable;
         bool m_started;
         bool m_die;
@@ -112,6 +113,7 @@ namespace sqf::runtime
             m_exit_behavior(exit_behavior),
             m_error_behavior(error_behavior),
             m_globals_value_scope(globals_scope),
+            m_globals_selected(false),
             m_bubble_variable(true),
             m_started(false),
             m_die(false)
@@ -245,6 +247,9 @@ namespace sqf::runtime
         sqf::runtime::instruction_set::iterator current() const { return m_instruction_set.begin() + m_position; }
         std::shared_ptr<sqf::runtime::value_scope> globals_value_scope() const { return m_globals_value_scope; }
         void globals_value_scope(std::shared_ptr<sqf::runtime::value_scope> scope) { m_globals_value_scope = scope; }
+        /// Whether this frame chose its namespace itself (`with ns do`), opposed to having been given the default one.
+        bool globals_selected() const { return m_globals_selected; }
+        void globals_selected(bool flag) { m_globals_selected = flag; }
 
         /// <summary>
         /// Moves current to next instruction.
